@@ -8,6 +8,41 @@ ASSUME_COMMON = ("Trusted base: g++/gcc 12, glibc, CPython 3.11 and the Python r
                  "exhaustive only within the stated bounds (small-scope hypothesis beyond them).")
 
 CHECKS = {
+    "C01": dict(
+        level="model_checking",
+        text="Small-scope exhaustive enumeration of wrapper atoms (parameter kind x position x call kind x return kind, "
+             "arity<=2, trailing defaults<=2) x option sets, each wrapper called 3 times on 2 objects with boundary "
+             "argument tuples; every call is executed through the generated -c / -python wrapper (signatures taken from "
+             "the database only) and through a natively compiled twin; return bits, body traces, object state and the "
+             "database's overload/default variant must agree.",
+        design="4/C01",
+        note="The C++ compiler decides overload resolution/defaults/casts in the twin; embedded NUL through char* and "
+             "-true-names with overloads are not judged.",
+        technique="bounded exhaustive program x configuration enumeration on the real tools, native-twin oracle",
+    ),
+    "C14": dict(
+        level="model_checking",
+        text="Deviation-bounded enumeration of environment answers (allocator address order asc/desc and every permutation "
+             "window of FunctionRemap-sized blocks, ASLR, clock, environment size, LC_*/TZ, stale output files) over "
+             "tie-provoking headers x 3 back-ends + interrogate_module: all single deviations (quick), pairs and wider "
+             "windows (thorough); outputs must be byte-identical, and without SOURCE_DATE_EPOCH differ only in the file "
+             "identifier, equal in code and database.",
+        design="4/C14",
+        note="Seams are LD_PRELOAD interposers (malloc family, clock) and setarch -R; no non-C locale exists in the image "
+             "(tools never call setlocale, checked with nm at run time).",
+        technique="deviation-bounded exhaustive enumeration of environment answers on the real binaries",
+    ),
+    "C17": dict(
+        level="model_checking",
+        text="Exhaustive small-scope enumeration: 2^5 (thorough 2^6) directory trees x every ordered arrangement of every "
+             "subset of -I/-S x include form x -noangles x includer place against a literal transcription of the lookup/"
+             "ownership rule; every ordered pair of 7 path spellings for once-only inclusion; every path string of <=4 "
+             "(thorough 5) components over {a, symlink, file, missing, ., .., empty} for idempotence and denotation "
+             "(st_dev, st_ino) of standardize/make_absolute/make_canonical.",
+        design="4/C17",
+        note="Ten open known findings: textual collapse of .. across a symlinked directory (design change, not a small fix).",
+        technique="bounded exhaustive enumeration of directory trees, option orders and path strings on the real binaries",
+    ),
     "C19": dict(
         level="fault_enumeration",
         text="Every output channel of interrogate/interrogate_module is run on the real binaries with every "
